@@ -46,9 +46,11 @@ CHECKS = {
             "specification (any payload 1..4095, any frame size 8..64, arbitrary padding, induction over the "
             "consecutive-frame index, transparency of flow-control/foreign frames) give: exactly the transmitted "
             "payload, once, at the last frame. The active decoder answers every first frame with exactly one "
-            "clear-to-send frame on the paired id. The candump text-log clause (regular expressions) is not decided.",
+            "clear-to-send frame on the paired id. Candump text logs: read_telegrams() is interpreted on concrete lines "
+            "of the three log formats (regular expressions run natively) and must hand exactly the denoted frames to "
+            "decode_rx_frame in file order.",
             "per-frame contract of decode_rx_frame as refinement of a declarative step function + inductive lemmas "
-            "over the contract + bounded 2/3-frame sequences guarding hidden state; z3"),
+            "over the contract + bounded 2/3-frame sequences guarding hidden state + enumerated log lines; z3"),
     "C13": ("with precondition `true` on the frame and any cell state satisfying the representation invariant, "
             "decode_rx_frame never raises, preserves the invariant and equals the step specification; the "
             "ghost-accumulator lemma shows every report is a single-frame payload or the announced-length prefix of "
@@ -76,8 +78,10 @@ CHECKS.update({
             "fragment carrying the id, error in strict mode when dangling or of the wrong type, database unchanged), "
             "update (whole-map postcondition, overwrite flag), OdxLinkRef.from_et (DOCREF vs referring fragments), "
             "OdxLinkId equality/hash, resolve_snref (unique name or error), retarget_snrefs (every layer reachable "
-            "through parent references re-resolved against the target). Which reference each of the ~150 "
-            "_resolve_odxlinks methods passes is plumbing that is not decided here.",
+            "through parent references re-resolved against the target), the nine SNREF call sites the property names "
+            "(bound to the uniquely named object of the prescribed collection or error in strict mode), and a syntactic "
+            "frame obligation: no function mutates the document-fragment list it is handed. Which reference each of the "
+            "~150 _resolve_odxlinks methods passes is plumbing that is not decided here.",
             "pre/postconditions with whole-map frame clauses on the odxlink functions; presence/type of entries "
             "symbolic, fragment shapes enumerated; z3"),
     "C16": ("representation invariant of NamedItemList (one name per position, names are the unique identifier-safe "
@@ -99,19 +103,25 @@ CHECKS.update({
             "specification, children by interface contract; message symbolic; z3"),
     "C09": ("the real _compute_available_objects (recursive) and priority sort run on real HierarchyElement/DiagLayer "
             "objects carrying ghost raw data; whole-view postcondition against the ISO 22901-1 7.3.2.4 rule written "
-            "declaratively per short name; frame obligation: no layer is altered, a parent's own view is unchanged.",
+            "declaratively per short name; frame obligation: no layer is altered, a parent's own view is unchanged. "
+            "The real _finalize_init runs on a two-layer hierarchy with 17 object categories and symbolic NOT-INHERITED "
+            "lists: every category inherits its own objects minus the list that governs that category, also after a "
+            "second refresh with changed raw data.",
             "whole-view postcondition + frame condition of the value-inheritance function; presence, equality and "
             "NOT-INHERITED flags symbolic, hierarchy shapes enumerated; z3"),
     "C14": ("the real VariantMatcher (request_loop generator driven through a consumer hook, evaluate, cache handling, "
             "_ident_response_matches) runs over ghost patterns/parameters/services with symbolic match facts and a "
             "deterministic ECU; postcondition: first candidate in list order with a fully matching pattern, same "
             "outcome with and without cache, only candidates' requests, no request twice with the cache; "
-            "MatchingParameter.matches on concrete value shapes.",
+            "identification requests are encoded by the real DiagService.encode_request; real EcuVariantPattern / "
+            "BaseVariantPattern objects with real matching parameters match iff every expected value is reported as "
+            "written; MatchingParameter.matches on concrete value shapes.",
             "postcondition of the matcher against a declarative first-match specification with symbolic match facts; z3"),
     "C15": ("the real _compute_available_commmunication_parameters (whole-map postcondition keyed by specification id "
             "and protocol), get_comparam (protocol-specific before generic), ComparamInstance.get_value/get_subvalue "
             "(defaults of the specification) and ten typed accessors (numeric content of the comparam the ISO tables "
-            "name).",
+            "name); ComplexComparam.from_et / create_complex_value_from_et on concrete documents keep sub-parameters and "
+            "sub-values at their document positions.",
             "whole-map postcondition of comparam inheritance + contracts of lookup and accessors; presence symbolic; z3"),
     "C18": ("Comparison.compare_diagnostic_layers / compare_services / compare_parameters: identity reports nothing and "
             "a single add / delete / rename / parameter change is reported as exactly that for exactly that service; "
@@ -121,14 +131,15 @@ CHECKS.update({
 })
 
 E2E = (" Above the leaf: (a) composite level - the real BasicStructure/Request/Response encode/decode loops over abstract "
-       "parameters that satisfy the Codec interface contract (paired encode/decode harness); (b) end-to-end - ~27 real "
+       "parameters that satisfy the Codec interface contract (paired encode/decode harness); (b) end-to-end - 42 real "
        "parameter descriptions built natively (coded constants, value parameters with IDENTICAL/LINEAR methods, reserved, "
        "matching-request, NRC-const, physical constants, system parameters, nested structures, end-of-PDU / static / "
-       "dynamic-length fields, MIN-MAX-LENGTH, LEADING-LENGTH-INFO, multiplexer, TABLE-KEY/TABLE-STRUCT, DTC DOPs) are "
+       "dynamic-length / dynamic-endmarker fields, MIN-MAX-LENGTH, LEADING-LENGTH-INFO, PARAM-LENGTH-INFO with length "
+       "keys, multiplexer, TABLE-KEY/TABLE-STRUCT, DTC DOPs, environment data descriptions) are "
        "run through the real Request/Response.encode and decode with values and message bytes symbolic; these are "
-       "labelled B (27 concrete descriptions, field/byte-field lengths bounded; values symbolic) and are reported as "
-       "bounded checks, never counted as proved. "
-       "PARAM-LENGTH-INFO, dynamic end-marker fields and environment data are not covered.")
+       "labelled B (42 concrete descriptions, field/byte-field lengths bounded; values symbolic) and are reported as "
+       "bounded checks, never counted as proved; for 19 descriptions the PDU is compared with an independently "
+       "written wire image, and decoded values must be backed by the bytes of the message.")
 for k in ("C01","C02","C03","C04","C05","C08"):
     CHECKS[k] = (CHECKS[k][0] + E2E, CHECKS[k][1] + "; Codec interface contract for composites; end-to-end harnesses over real descriptions")
 CHECKS["C17"] = (CHECKS["C17"][0] + " Restoration: whatever passes in strict mode gives the same result in lenient mode "
